@@ -53,7 +53,8 @@ type RootInfo struct {
 	Names      []string
 	UnitType   bool
 	Positive   bool
-	Referenced bool
+	Referenced bool   // some name of the process is mentioned by another process
+	NameRef    []bool // per provider name: mentioned by another process
 }
 
 const FuelLimit = 3_000_000
@@ -103,6 +104,7 @@ func RunOnce(text string, cfg Config, prefix []int, opts vsched.Options, skipTC 
 			ri := RootInfo{}
 			for _, n := range p.Providers {
 				ri.Names = append(ri.Names, n.Ident)
+				ri.NameRef = append(ri.NameRef, refd[n.Ident])
 				if refd[n.Ident] {
 					ri.Referenced = true
 				}
